@@ -20,7 +20,7 @@ def run(chk):
     chk.trusted_base = TRUSTED
     chk.rule = ("ops cells (debug assertions on, compared with the exact oracle: C01 predicates) and tess (release build: C02/C04 predicates, finiteness) on the measure-zero families: generators on faces/edges/corners, "
                 "n=1, n=2, collinear, coplanar, exact and near-exact lattices (perturbation 0..1e-6), lattices on the walls, co-spherical (random on a sphere and exact lattice spheres), clusters of diameter 1e-3..1e-12 of the box; "
-                "1D/2D/3D, periodic/reflective; non-trivial = input of a degenerate family on which the exact predicate was invoked or the generators touch the boundary; distinct by record")
+                "1D/2D/3D, periodic/reflective; op clip1: on reachable cells of tie-prone families every vertex on which the float filter of the next bisector returns 0 must be removed iff the exact in-sphere determinant of the five snapped integer points is negative, with a positively oriented dual triple, and the exact predicate must have been called at least once per tie; non-trivial = input of a degenerate family on which the exact predicate was invoked or the generators touch the boundary; distinct by record")
     chk.lean(['MVoro.Props.C05', 'MVoro.Proofs.Misc', 'MVoro.Proofs.VorSet'], ['MVoro.Obl.Grid'], ['Grid'])
     exact_used = 0
     # debug build, against the exact oracle
@@ -83,5 +83,55 @@ def run(chk):
                     chk.violation('impl-vs-oracle', 'cell measures sum to %s (box %s) or a cell is not positive (%s, record %d)' % (fl(tot), fl(tol.boxvol), r.family, r.id), rp, key='sum ' + r.family)
         chk.traces += 1
     chk.extra_cov['records_with_exact_predicate_invocations'] = exact_used
+    clip1(chk)
     if exact_used == 0 and chk.only is None:
         chk.violation('coverage', 'the exact predicate was never invoked on the degenerate families: the exact path is not exercised', None, key='coverage')
+
+
+def clip1(chk):
+    """isolated filter ties: the real clip_by_plane removes the vertex iff the integer oracle says strictly inside"""
+    got = run_cells_op(chk, op='clip1')
+    if got is None:
+        return
+    recs, model = got
+    n = 0
+    for r in recs:
+        chk.count()
+        rp = {'op': 'clip1', 'ids': [r.id], 'family': r.family, 'record': r.line[:2000]}
+        if r.res[0] == 'RANGE':
+            chk.violation('impl-vs-oracle', 'a position queried by the exact predicate leaves the integer grid (record %d, %s)' % (r.id, r.family), rp, key='clip1-range')
+            continue
+        m = model.get(r.id)
+        if m is None or len(m) < 4:
+            chk.violation('driver', 'model produced no result for clip1 record %d' % r.id, None)
+            continue
+        sign, orient = int(m[0]), int(m[3])
+        removed = r.res[0] == 'removed'
+        pts = [tuple(r.inp[3 * i:3 * i + 3]) for i in range(5)]
+        if orient == 0 and pts[0] in pts[1:4]:
+            # the generator lies exactly on a wall of its dual triple: its mirror image coincides with it, the lifted
+            # determinant vanishes identically and the vertex is kept (known degenerate configuration, see F2)
+            chk.extra_cov['clip1_generator_on_wall_of_dual_triple'] = chk.extra_cov.get('clip1_generator_on_wall_of_dual_triple', 0) + 1
+            if removed:
+                chk.violation('impl-vs-model', 'filter tie with the generator on a wall of the dual triple: determinant is 0 but the vertex was removed (record %d)' % r.id, rp, key='clip1-decision')
+            continue
+        if orient <= 0:
+            chk.violation('impl-vs-oracle', 'the dual triple of a vertex is not positively oriented on the integer grid (orientation %d): the sign of the in-sphere test is meaningless (record %d, %s)' % (orient, r.id, r.family), rp, key='clip1-orientation')
+            continue
+        if removed != (sign < 0):
+            chk.violation('impl-vs-model', 'filter tie: clip_by_plane %s the vertex, the exact in-sphere determinant on the integer grid has sign %d (record %d, %s)' % (r.res[0], sign, r.id, r.family), rp, key='clip1-decision')
+            continue
+        if int(r.res[2]) < int(r.res[1]):
+            chk.violation('impl-vs-oracle', 'the cell had %s filter ties but the exact predicate was invoked %s times (record %d)' % (r.res[1], r.res[2], r.id), rp, key='clip1-calls')
+            continue
+        n += 1
+        chk.traces += 1
+        chk.nontriv(('clip1', tuple(r.inp)))
+    chk.extra_cov['clip1_tie_decisions_checked'] = n
+    hist = {}
+    for r in recs:
+        if r.res[0] in ('removed', 'kept'):
+            m = model.get(r.id)
+            k = r.res[0] + ('_on_sphere' if m and m[0] == '0' else '')
+            hist[k] = hist.get(k, 0) + 1
+    chk.extra_cov['clip1_decisions'] = hist
